@@ -207,7 +207,7 @@ ExecEv ==
 
 \* a real invocation of an instrumented fact method (an atom served from the memo produces no event)
 CallEv == /\ Is("call")
-          /\ IF hOn /\ T.m = "Heavy"
+          /\ IF hOn /\ T.m \in {"Heavy", "HeavyB"}
              THEN /\ hUsed' = hUsed + 1
                   /\ Check(hUsed + 1 <= hLimit, "C13-evaluated-again-without-invalidation")
              ELSE UNCHANGED <<hUsed, viol>>
